@@ -7,7 +7,7 @@ for r in "$@"; do
     if python3 - "$m" <<'PY'
 import json,sys
 m=json.load(open(sys.argv[1]))
-sys.exit(0 if '--all' in m.get('ran','') and len(m.get('checks',{}))==20 and m.get('repo_head')=='b489035' else 1)
+sys.exit(0 if '--all' in m.get('ran','') and len(m.get('checks',{}))==20 and m.get('repo_head')=='36eba85' else 1)
 PY
     then cp $m /verif/seeded/$c/meta.json; fi
   done
